@@ -682,6 +682,7 @@ static int cif_value_clone_table(struct table_value_s *value, struct table_value
                     }
 
                     FAILURE_HANDLER(hash):
+                    cif_value_clean(new_value);  /* a no-op if cloning the value failed */
                     free(new_entry->key_orig);
                 }
                 free(new_entry->key);
